@@ -438,7 +438,15 @@ func vspecB2I(b bool) byte {
 //@   ensures[C04:accept] vspecHdrOK(src, old(Type(m.mtypeflags[0]>>4))) && vspecVarintVal(src, 1) == 2 && src[vspecH(src)] <= 1 && src[vspecH(src)+1] <= 5 ==> err == nil
 //@   ensures[C03:fields] err == nil ==> n == vspecH(src)+2 && vspecVarintVal(src, 1) == 2 && src[vspecH(src)] == vspecB2I(m.sessionPresent) && byte(m.returnCode) == src[vspecH(src)+1] && m.returnCode <= 5
 //@   ensures[C03:clean] err == nil ==> !m.dirty && sameslice(m.dbuf, src[:n]) && sameslice(m.mtypeflags, src[0:1])
+//@   ensures[C20:errtype] !typeis(err, ConnackCode)
 //@   modifies m.remlen, m.mtypeflags, m.dbuf, m.dirty, m.sessionPresent, m.returnCode
+
+//@ func (*ConnackMessage).ReturnCode
+//@   pure
+//@   ensures result == m.returnCode
+//@ func (*ConnackMessage).SessionPresent
+//@   pure
+//@   ensures result == m.sessionPresent
 
 //@ func (*ConnackMessage).Encode
 //@   results n, err
@@ -1192,3 +1200,6 @@ func vspecCWM(src []byte) int { return vspecCW(src) + 2 + vspecBE16(src, vspecCW
 //@ func (*ConnectMessage).Password
 //@   pure
 //@   ensures sameslice(result, m.password) && cap(result) == cap(m.password)
+//@ func (*SubackMessage).ReturnCodes
+//@   pure
+//@   ensures sameslice(result, m.returnCodes) && cap(result) == cap(m.returnCodes)
